@@ -103,7 +103,9 @@ impl JobManager {
             }
         }
 
-        let id = self.jobs.len() + 1;
+        // N.B. Jobs may be removed from the middle of the table while later ones are still
+        // live, so the table's length can't be used to derive a fresh id.
+        let id = self.jobs.iter().map(|j| j.id).max().unwrap_or(0) + 1;
         job.id = id;
         job.annotation = JobAnnotation::Current;
         self.jobs.push(job);
